@@ -12,29 +12,41 @@ LEAN_MODULE = "Proofs.C17"
 _T = "SE.Proofs.C17."
 THEOREMS = [_T + n for n in [
     "C17_crop_exact", "C17_crop_rejects", "C17_extend_lattice", "C17_extend_keeps", "C17_extend_fill",
-    "C17_width", "C17_placement", "C17_regular_axis_continues", "C17_step_known", "C17_arange_by_count"]]
+    "C17_width", "C17_placement", "C17_regular_axis_continues", "C17_step_known", "C17_arange_by_count",
+    "C17_crop_bounds", "C17_extend_plan", "C17_extend_exact", "C17_width_keeps", "C17_crop_window",
+    "C17_step_options"]]
 LEVEL_TEXT = ("Lean theorems over the rational model of crop_dim (exactly the samples in the requested interval when no "
-              "coordinate lies within eps of an open end), extend_dim (result = the axis lattice inside the requested "
-              "interval, original samples kept, new ones filled) and adjust_dim_width / crop_dim_width / extend_dim_width "
-              "(exactly `width` samples for every width >= 1, placement at start / centre / end, a regular axis continues "
-              "on its lattice) hold for all inputs; the model is tied to the code by exact differential runs on dyadic axes "
-              "(every width 1..2n+3, three positions, all closedness flags, step from attribute or estimated) and the "
-              "defaults (eps, tolerances, closedness) are re-extracted from the signatures on every run.")
+              "coordinate lies within eps of an open end), extend_dim (the whole result = filled samples on the lattice points "
+              "below, the array itself, filled samples on the lattice points above; exactly the lattice points inside the "
+              "requested interval) and adjust_dim_width / crop_dim_width / extend_dim_width (exactly `width` samples for every "
+              "width >= 1, placement at start / centre / end, every original sample kept whatever it holds - NaN, +-inf, the "
+              "fill value itself -, new samples filled, a regular axis continues on its lattice) hold for all inputs and any "
+              "cell type. The numeric kernels of crop_dim (slice bounds) and extend_dim (np.arange calls and their guards) are "
+              "extracted from the current source by symbolic execution and proved equal to the model for all inputs on every "
+              "run (32 ties); the rest of the model is tied by exact differential runs on dyadic axes (every width 1..2n+3, "
+              "three positions, all closedness flags, step from attribute or estimated, data with NaN / inf / fill-equal cells "
+              "over 1-3 dimensions); defaults (eps, tolerances, closedness) are re-extracted from the signatures on every run.")
 LEVEL_NOTE = ("Unmodelled: binary64 rounding of numpy arange with a fractional step and of `end + k * step` (probed on the "
-              "real code by the free-mode monitor with steps 0.01, 1/3, 0.004, 1/44100: length, data on coordinates, "
+              "real code by the free-mode monitors with steps 0.01, 1/3, 0.004, 1/44100: length, data on coordinates, "
               "coordinates within 2^-40 of the lattice); xarray sel / reindex are modelled as label slice / label lookup. "
               "Requested open ends within eps of a coordinate are excluded by hypothesis, as in the property. "
-              "Model tied to the code by generator-bounded correspondence and a table obligation for the defaults.")
-TECHNIQUE = "Lean 4 proof over model; exact differential correspondence on dyadic axes; free-mode monitor for arange rounding"
+              "Symbolic ties cover the arithmetic before the hand-over to xarray; crop_dim_width / extend_dim_width (integer "
+              "index arithmetic) and get_dim_step (numpy reductions) are tied by generator-bounded correspondence, the "
+              "defaults by a table obligation.")
+TECHNIQUE = ("Lean 4 proof over model; symbolic-trace equality obligations for the crop_dim / extend_dim kernels; exact "
+             "differential correspondence on dyadic axes; free-mode monitors for arange rounding")
 RULE = ("dyadic axes of 1-40 points x every width 1..2n+3 x three positions x step attribute present/absent; crop and "
-        "extend requests on, between and beyond coordinates with all closedness flags; decimal-step monitor; "
+        "extend requests on, between and beyond coordinates with all closedness flags; cells with NaN / +-inf / fill-equal "
+        "values over 1-d, 2-d and 3-d layouts; get_dim_step options; decimal-step monitors; "
         "non-trivial = the implementation returned an array; distinct = distinct (operation, input)")
-TRUSTED = ["xarray sel / reindex, pandas slice_indexer, numpy arange / diff / mean / isclose (modelled, validated by correspondence)"]
+TRUSTED = ["xarray sel / reindex, pandas slice_indexer, numpy arange / diff / mean / isclose (modelled, validated by correspondence)",
+           "symbolic tracer stubs of an xarray.DataArray with one range dimension (harness/props/c17.py _kernel_stubs)"]
 ASSUMPTIONS = ["binary64 arithmetic is exact on the dyadic axes used for the exact comparisons",
                "axes strictly increasing with unique coordinates, step > 0 (the property's quantifier: regular axes)",
-               "free-mode monitor: requested ends are nominal lattice points or half-way between two; the expected "
+               "free-mode monitors: requested ends are nominal lattice points or half-way between two; the expected "
                "number of samples is the nominal count"]
 NOT_COMPARED = ["error messages (only the error class)", "`start` / `stop` attributes written by extend_dim",
+                "dtype of the data (an integer array may come back as float; cell values are compared)",
                 "extension of a one-point axis that has no step attribute (the estimated step is NaN)",
                 "non-dyadic axes: only length, placement of the data, kept coordinates and lattice continuation within "
                 "tolerance are checked on the real output (the rational model cannot exhibit arange rounding)"]
